@@ -74,6 +74,8 @@ def gen_repl_case(rng):
     case = {"constr": constr, "pX": pX, "oX": oX, "pF": [val() for _ in range(n)], "oF": [val() for _ in range(n)],
             "pG": [gval() for _ in range(n)], "oG": [gval() for _ in range(n)], "mode": mode, "scales": scales,
             "api": rng.choice(["do", "do", "indices", "inplace"])}
+    if rng.random() < 0.3:
+        case["prime"] = rng.choice(["unconstrained", "allfeas"])
     return case
 
 
@@ -100,6 +102,13 @@ def run_repl(case):
     slots_before = [id(ind) for ind in pop]
     obs = {"pCV": enc(pCV), "pFeas": pFeas.tolist(), "oCV": enc(oCV), "oFeas": oFeas.tolist()}
     surv = ImprovementReplacement()
+    if case.get("prime"):
+        # the same operator object has been used before (an algorithm object keeps one for all generations and runs):
+        # on a population without constraints, or with every member feasible
+        pcase = dict(case); pcase["constr"] = case["prime"] == "allfeas"
+        pcase["pG"] = [[-1.0]] * n; pcase["oG"] = [[-1.0]] * n
+        prob0, pop0, off0 = build_pops(pcase)
+        surv.do(prob0, pop0, off0)
     if case["api"] == "indices":
         I = surv.do(prob, pop, off, return_indices=True)
         obs["mask"] = np.asarray(I).astype(bool).tolist()
@@ -126,7 +135,7 @@ class C02(Check):
     IMPORTS = "From PV Require Import Model.Replace."
     RULE = ("ImprovementReplacement().do(problem, pop, off) (also return_indices / inplace) on parent/offspring populations with grid values (ties in F and CV, "
             "CV = 0 vs tiny positive), offspring equal to own parent / another member / an earlier offspring, unconstrained / mixed / all-feasible / "
-            "all-infeasible; survivors identified by object identity; non-trivial = at least one tie, duplicate or feasibility change; distinct by hash")
+            "all-infeasible; in 30% of the cases the operator object has served an unconstrained / all-feasible population before; survivors identified by object identity; non-trivial = at least one tie, duplicate or feasibility change; distinct by hash")
     ASSUMPTIONS = ["pymoo's duplicate test (Euclidean distance <= 0) is modelled as equality of decision vectors (differs only under underflow of squared differences)",
                    "CV >= 0 and feasible = (CV <= 0) are taken from pymoo's Individual and used as hypotheses of best_never_worse"]
     QUICK_N = 500
@@ -180,7 +189,7 @@ class C02(Check):
         return bool(dup or ties or case["mode"] == "mixed")
 
     def classes(self, case, obs):
-        return [case["mode"], case["api"], "n=%d" % len(case["pX"])] + (["huge-or-infinite-objectives"] if case.get("scales") else [])
+        return [case["mode"], case["api"], "n=%d" % len(case["pX"])] + (["huge-or-infinite-objectives"] if case.get("scales") else []) + (["operator-reused"] if case.get("prime") else [])
 
     def explain(self, case, obs):
         P, O = repl_terms(case, obs)
